@@ -328,6 +328,9 @@ func ruleOptSetterFor(vars []string) func(p *Prog, r *Report) {
 		if want["mxj.attrPrefix"] {
 			checkPrepend(p, r, rule)
 		}
+		if want["mxj.defaultArraySize"] {
+			checkArraySize(p, r, rule)
+		}
 		r.Floor(rule, len(vars))
 	}
 }
